@@ -56,7 +56,7 @@ def builders():
                                                                     radio_ip=ip(r), result=r.choice([c.value for c in L.LocationProtocolResultCodes]),
                                                                     gpsdata=gps(r), is_reliable=rel(r))))
     # ---- TMP
-    texts = ["", "A", "Hello", "žluťoučký kůň", "中文" * 40, "x" * 200]
+    texts = ["", "A", "Hello", "žluťoučký kůň", "中文" * 40, "x" * 200, " ", "trailing ", " lead", "line\r\n", "\x00nul", "nul\x00", "\u00a0nbsp\u00a0", "\ufeffbom"]
 
     def tmp(op):
         def f(r):
